@@ -40,6 +40,10 @@ PARTS = {
     # wrong-kind conditions: a key-kind tree inside a list part etc. must match nothing, not raise
     "Lk": ("('list', K('equal_to', k))", [("k", "str")]),
     "Mi": ("('map', IX('equal_to', n))", [("n", "int")]),
+    # xor / or of a length pre-processor (undefined for scalars: the leaf is false there) with a leaf that holds for them
+    "Lxl": ("('list', ('xor', leaf('value', 'length', 'equal_to', 2), leaf('value', 'dtype', 'equal_to', int)))", []),
+    "Mxl": ("('map', ('xor', V('truthy'), leaf('value', 'length', 'less_than', t)))", [("t", "int")]),
+    "Xxl": ("('mol', NULL, NULL, ('xor', leaf('value', 'length', 'greater_than', t), V('is_instance', int, str)))", [("t", "int")]),
     # extra primitives for the deep document
     "d": ("('prim', 'd')", []),
     "x": ("('prim', 'x')", []),
@@ -85,13 +89,13 @@ def BOUNDS(ctx):
 SHAPES_QUICK = [
     # 1 part
     ("s",), ("i",), ("f1",), ("f15",), ("bl",), ("M",), ("L",), ("X",), ("Mk",), ("Mv",), ("Li",), ("Lv",), ("Xc",), ("Xv",),
-    ("Lk",), ("Mi",), ("Mki",),
+    ("Lk",), ("Mi",), ("Mki",), ("Lxl",), ("Mxl",), ("Xxl",),
     # 2 parts
     ("a", "s"), ("l", "i"), ("a", "M"), ("l", "L"), ("M", "b"), ("M", "M"), ("L", "L"), ("X", "X"), ("X", "i"), ("Md", "b"),
     ("L", "Mk"), ("i", "j"), ("X", "Li"), ("Mnk", "X"), ("Mlen", "0"), ("s", "s2"), ("1", "M"), ("e", "L"), ("b", "M"),
     # 3 parts
     ("a", "c", "i"), ("M", "c", "Lv"), ("X", "X", "X"), ("l", "L", "s"), ("L", "M", "L"), ("X", "Xiv"), ("M", "L", "Mv"),
-    ("i", "1", "j"), ("Mkv", "M", "0"), ("l", "Liv", "X"),
+    ("i", "1", "j"), ("Mkv", "M", "0"), ("l", "Liv", "X"), ("l", "Lxl"), ("X", "Xxl"),
 ]
 SHAPES_MORE = [
     ("T",), ("Mkv",), ("Liv",), ("Xiv",), ("Md",), ("Ll",), ("Mlen",), ("Mnk",), ("Lie",),
@@ -176,7 +180,7 @@ def cases(ctx):
         if ctx.quick:
             # one document per shape in quick (rotating), chosen so that the first part can match
             first = sh[0]
-            if first in ("i", "j", "L", "Li", "Lv", "Lk", "Ll", "Liv", "Lie", "0", "1") and len(sh) > 0:
+            if first in ("i", "j", "L", "Li", "Lv", "Lk", "Ll", "Liv", "Lie", "0", "1", "Lxl") and len(sh) > 0:
                 docid = "dl"
             elif first in ("f1", "f15", "T"):
                 docid = "dk"
@@ -191,7 +195,7 @@ def cases(ctx):
             out.append(path_case(sh, docid, L))
         else:
             for docid in DOCS:
-                symbolic_num = any(p in ("i", "j", "bl", "Mki", "Li", "Lie", "Liv", "Xc", "Xiv", "Mv", "Mkv", "Xv", "Mlen") for p in sh)
+                symbolic_num = any(p in ("i", "j", "bl", "Mki", "Li", "Lie", "Liv", "Xc", "Xiv", "Mv", "Mkv", "Xv", "Mlen", "Mxl", "Xxl") for p in sh)
                 if docid == "dk" and symbolic_num:
                     continue  # a float key against a symbolic int stalls z3: float keys meet concrete parts only
                 out.append(path_case(sh, docid, L))
@@ -278,6 +282,8 @@ return ok
 """
     out.append(mk_case("c03.entry.symbolic_int_everywhere", [("i", "int"), ("u1", U), ("u2", "int")], body, pre=[f"BU({L}, i, u1, u2)"], stubs=["sym_repr"]))
     for sh, d in [(("a", "c", "i"), "dm"), (("M", "c", "Lv"), "dm"), (("X", "X"), "dl"), (("i", "1", "j"), "dl"), (("Mk",), "dm"),
-                  (("l", "L", "s"), "dm")] + ([] if ctx.quick else [(("X", "Xiv", "b"), "dm"), (("L", "M", "L"), "dl"), (("f1", "b"), "dk")]):
+                  (("l", "L", "s"), "dm"),
+                  # a MapOrListValue whose key and index conditions differ (DataPath.simplify() collapses it to the index alone)
+                  (("Xc",), "dm"), (("Xc",), "dl"), (("a", "Xc"), "dm"), (("l", "Xc"), "dm")] + ([] if ctx.quick else [(("X", "Xiv", "b"), "dm"), (("L", "M", "L"), "dl"), (("f1", "b"), "dk")]):
         out.append(entry_case(sh, d, L))
     return out
